@@ -74,6 +74,9 @@ MUTANTS = [
     ("delay_resp: request correction dropped", MSG, "correction_field: TimeInterval(\n                request_header\n                    .correction_field\n                    .0\n                    .saturating_add(timestamp.subnano().0),\n            ),",
      "correction_field: timestamp.subnano(),", "break"),
     ("delay_resp: header fields re-ordered (same meaning)", MSG, "            two_step_flag: false,\n            source_port_identity: port_identity,\n", "            source_port_identity: port_identity,\n            two_step_flag: false,\n", "hold"),
+    ("pdelay_resp: sequence number is our own counter", MSG, "                    request_header.sequence_id,\n                    minor_ptp_version,", "                    0,\n                    minor_ptp_version,", "degrade"),
+    ("pdelay_resp: request correction not copied", MSG, "                correction_field: request_header.correction_field,\n", "", "break"),
+    ("pdelay_resp: one-step flag", MSG, "                two_step_flag: true,\n                correction_field: request_header.correction_field,", "                two_step_flag: false,\n                correction_field: request_header.correction_field,", "break"),
     ("announce: leap flags crossed", MSG, "leap59: time_properties_ds.leap_indicator == LeapIndicator::Leap59,\n            leap61: time_properties_ds.leap_indicator == LeapIndicator::Leap61,",
      "leap59: time_properties_ds.leap_indicator == LeapIndicator::Leap61,\n            leap61: time_properties_ds.leap_indicator == LeapIndicator::Leap59,", "break"),
     ("announce: traceable flags crossed", MSG, "time_tracable: time_properties_ds.time_traceable,\n            frequency_tracable: time_properties_ds.frequency_traceable,",
@@ -102,7 +105,7 @@ example : Generated.cmpDispatch.isSome ∧ Generated.figure35Arms.isSome ∧ Gen
     Generated.figure34Arms.isSome ∧ Generated.asOrderingTable.isSome ∧ Generated.ofAnnounceTable.isSome ∧
     Generated.ofOwnTable.isSome ∧ Generated.accuracyComparedByOctet = some true ∧ Generated.decisionTable.isSome ∧ Generated.bestCompareTable.isSome ∧ Generated.findBestIsMaxBy = some true ∧
     Generated.announceFlagTable.isSome ∧ Generated.announceBodyTable.isSome ∧ Generated.timePropertiesTable.isSome ∧ Generated.syncCtor.isSome ∧ Generated.followUpCtor.isSome ∧
-    Generated.delayReqCtor.isSome ∧ Generated.delayRespCtor.isSome ∧ Generated.pdelayReqCtor.isSome ∧
+    Generated.delayReqCtor.isSome ∧ Generated.delayRespCtor.isSome ∧ Generated.pdelayReqCtor.isSome ∧ Generated.pdelayRespCtor.isSome ∧ Generated.pdelayRespFuCtor.isSome ∧
     Generated.announceBaseHeaderAsModelled = some true := by decide
 """
 
